@@ -1,7 +1,7 @@
 """C04 - all validation entry points and modes agree on one verdict.
 
 For every document of the catalogue (mc/gen/docs_c04.py: the minimal valid and minimal invalid document of every
-fault class, over 17 small schemas, XSD 1.0 and 1.1; plus the documents with exactly k errors) the complete
+fault class, over 18 small schemas, XSD 1.0 and 1.1; plus the documents with exactly k errors) the complete
 product  entry point x validation mode x source kind  is executed.  The reference model is the catalogue itself:
 the verdict of each document is fixed by its construction, and the statement of the property gives the relations
 between the observations of the different entry points:
@@ -33,7 +33,7 @@ from mc.explore import procexec_c04 as PX
 
 ID = 'C04'
 TITLE = 'All validation entry points and modes agree on one verdict'
-RULE = ('every catalogue document (minimal valid / minimal invalid document of every fault class of 17 schemas, '
+RULE = ('every catalogue document (minimal valid / minimal invalid document of every fault class of 18 schemas, '
         'XSD 1.0 and 1.1, and the documents with exactly k errors, k in {0,1,2,255,256,257,511,512}) x every entry '
         'point (schema methods, package functions with a schema object / a schema path / xsi location hints, '
         'XsdElement methods, XmlDocument, console entry) x mode (strict, lax, skip) x source kind; states = '
@@ -73,7 +73,11 @@ MEM_KINDS = ('str', 'bytes', 'etree', 'element', 'lxml', 'resource', 'lazy')
 THOROUGH_FILE_KINDS = ('pathlib', 'resource-path', 'resource-url')
 THOROUGH_MEM_KINDS = ('lxml-element', 'lazy2', 'lazy-thin', 'stringio', 'bytesio')
 ET_KINDS = ('etree', 'element')
-LAZY_KINDS = ('lazy', 'lazy2', 'lazy-thin', 'lazykw')
+LAZY_KINDS = ('lazy', 'lazy2', 'lazy-thin', 'lazykw', 'lazy2-full')
+# identity-constraint schemas: the lazy depth 2 sources belong to the quick bound too (both tiers key them with the
+# base source kinds, so a quick key is always a thorough key)
+DEEP_LAZY_SCHEMAS = ('identity', 'scoped', 'id', 'inherit')
+DEEP_LAZY_KINDS = ('lazy2', 'lazy2-full')
 PARTS = ('file', 'mem', 'misc')
 
 
@@ -121,6 +125,8 @@ def open_source(kind, text, path):
         return XMLResource(path, lazy=True), nothing
     if kind == 'lazy2':
         return XMLResource(path, lazy=2), nothing
+    if kind == 'lazy2-full':
+        return XMLResource(path, lazy=2, thin_lazy=False), nothing
     if kind == 'lazy-thin':
         return XMLResource(path, lazy=True, thin_lazy=True), nothing
     if kind == 'lazykw':                     # the package functions / XmlDocument build the lazy resource themselves
@@ -267,15 +273,18 @@ def document_calls(S, extra):
 
 # --- one document ---------------------------------------------------------------------------
 
-def source_kinds(part, tier):
+def source_kinds(part, tier, schema_name=None):
     if part == 'file':
         return FILE_KINDS + (THOROUGH_FILE_KINDS if tier == 'thorough' else ())
     if part == 'mem':
-        return MEM_KINDS + (THOROUGH_MEM_KINDS if tier == 'thorough' else ())
+        kinds = MEM_KINDS + (THOROUGH_MEM_KINDS if tier == 'thorough' else ())
+        if schema_name in DEEP_LAZY_SCHEMAS:
+            kinds += tuple(k for k in DEEP_LAZY_KINDS if k not in kinds)
+        return kinds
     raise ValueError(part)
 
 
-def plan(part, tier, S, cls, fx, doc):
+def plan(part, tier, S, cls, fx, doc, schema_name=None):
     """The list of (layer, entry, mode, data kind, source kind, source text, source path, callable)."""
     label, fclass, text, valid, pfx = doc
     text = fx['texts'][label]
@@ -292,7 +301,7 @@ def plan(part, tier, S, cls, fx, doc):
                 out.append((layer, entry, mode, dk, kind, stext, spath, fn))
 
     if part in ('file', 'mem'):
-        kinds = source_kinds(part, tier)
+        kinds = source_kinds(part, tier, schema_name)
         add('schema', schema_calls(S), kinds)
         add('package', package_calls({'schema': S}), kinds)
         return out
@@ -335,7 +344,7 @@ def run_doc(S, cls, version, schema_name, doc, part, tier, fx):
         stats['contested'] = 1
     situations = set()
     obs = []
-    for layer, entry, mode, dk, kind, stext, spath, fn in plan(part, tier, S, cls, fx, doc):
+    for layer, entry, mode, dk, kind, stext, spath, fn in plan(part, tier, S, cls, fx, doc, schema_name):
         src, close = open_source(kind, stext, spath)
         try:
             try:
@@ -416,6 +425,8 @@ def run_doc(S, cls, version, schema_name, doc, part, tier, fx):
     # The source kinds that only the thorough tier uses are keyed apart, so that every key of a quick run is
     # also a key of the thorough run.
     extra = set(THOROUGH_FILE_KINDS + THOROUGH_MEM_KINDS) if part in ('file', 'mem') else set()
+    if schema_name in DEEP_LAZY_SCHEMAS:
+        extra -= set(DEEP_LAZY_KINDS)
     merged = {}
     for (rule, who, observed), kinds in sorted(found.items()):
         for group in (sorted(set(kinds) - extra), sorted(set(kinds) & extra)):
